@@ -94,6 +94,15 @@ def rowOkB (hasSv : Bool) (bpms : List Tp) (svs : List Sv) (ref : Rat) (r : Rat 
 def speedOkB (hasSv : Bool) (bpms : List Tp) (svs : List Sv) (omin omax ref : Rat) (out : List (Rat × Option Rat)) : Bool :=
   decide (groupKeys (out.map (·.1)) = breakpoints hasSv bpms svs omin omax) && out.all (rowOkB hasSv bpms svs ref)
 
+/-- the valued rows of the frame `l` are exactly the tempo points -/
+def FrameOf (bpms : List Tp) (l : List Row) : Prop :=
+  (∀ t b, (t, some b) ∈ l → (⟨t, b⟩ : Tp) ∈ bpms) ∧ (∀ p ∈ bpms, (p.time, some p.bpm) ∈ l)
+
+/-- no valueless row precedes a valued row with the same offset (what a *stable* sort of
+`tempo rows ++ marker rows` guarantees, and an unstable one does not: finding D42) -/
+def ValuedFirst (l : List Row) : Prop :=
+  ∀ a b t, l = a ++ (t, none) :: b → ∀ r ∈ b, r.1 = t → r.2 = none
+
 /-! ### SV normalisation -/
 
 /-- one SV per tempo point, at its time, whose multiplier times that bpm is the reference -/
